@@ -41,7 +41,13 @@ pub fn random_model(r: &mut Rng) -> Model {
         RV::Str("q".into()),
         RV::Tuple(vec![RV::Int(1), RV::Empty]),
         RV::Empty,
+        RV::Tuple(vec![]),
+        RV::Tuple(vec![RV::Float(2.5)]),
     ];
+    // now and then a user function shadows a builtin
+    if r.chance(1, 6) {
+        m.funs.insert(r.pick(&["min", "max", "len", "typeof", "if", "str::from"]).to_string(), FnModel::Marker);
+    }
     for n in ["x", "y", "x0", "x1", "x2"] {
         if r.chance(2, 3) {
             m.vars.insert(n.to_string(), r.pick(&vals).clone());
@@ -478,6 +484,22 @@ pub fn check_program(out: &mut Out, ast: &Ast, model: &Model, r: &mut Rng) {
     let is = exec::run_impl(&src, None, model, Entry::StrMut, false);
     out.eval();
     exec::compare(out, "order", &src, model, &rr, &is, Entry::StrMut);
+    // the typed views evaluate exactly once as well: same effects, same final context
+    if judged {
+        let which = r.below(14);
+        let (effects, vars) = exec::run_typed(&src, &tree, model, which);
+        out.eval();
+        out.count("typed entry points (effects compared)");
+        let same_log = rr.run.log.len() == effects.len() && rr.run.log.iter().zip(&effects).all(|(a, b)| a.same(b));
+        if !same_log || !api::same_vars(&rr.after.vars, &vars) {
+            out.violation(
+                "order/typed-entry-point-effects",
+                format!("{}   [typed mutable entry point #{} ({}); initial context {}]", src, which, exec::TYPED_NAMES[which], model.show_vars()),
+                format!("{} ; final {}", exec::show_effects(&rr.run.log), rr.after.show_vars()),
+                format!("{} ; final {}", exec::show_effects(&effects), api::show_vars(&vars)),
+            );
+        }
+    }
 }
 
 struct Exhaustive {
